@@ -135,9 +135,9 @@ func cmdCheck(args []string) int {
 	fs.StringVar(&o.Lock, "lock", "/verif/contracts.lock.json", "recorded names of parameters and locals (rename robustness)")
 	fs.Parse(args)
 	if o.Timeout == 0 {
-		o.Timeout = 10
+		o.Timeout = 30
 		if o.Tier == "thorough" {
-			o.Timeout = 60
+			o.Timeout = 120
 		}
 	}
 	if s := os.Getenv("VERIF_SEED"); s != "" && o.Seed == 0 {
